@@ -81,7 +81,8 @@ func isAllowedPossibleValue(opt *Option, value interface{}) error {
 func migrateValue(option *Option, value any) any {
 	for _, migration := range option.Migrations {
 		newValue := migration(option, value)
-		if newValue != value {
+		// (values such as string lists cannot be compared with !=)
+		if !reflect.DeepEqual(newValue, value) {
 			log.Debugf("config: migrated %s value from %v to %v", option.Key, value, newValue)
 		}
 		value = newValue
